@@ -3939,7 +3939,7 @@ void UniCompiler::emit_2v(UniOpVV op, const Operand_& dst_, const Operand_& src_
       case UniOpVV::kCvtTruncF64ToI32Lo:
       case UniOpVV::kCvtRoundF64ToI32Lo: {
         // Intrinsic - narrowing conversion - low part conversions are native, high part emulated.
-        uint32_t dst_size = Support::max(dst.size() / 2u, src.x86_rm_size());
+        uint32_t dst_size = src.is_mem() ? Support::max(dst.size(), src.x86_rm_size()) : Support::max(dst.size() / 2u, src.x86_rm_size());
         uint32_t w = dst_size >> 5;
 
         dst.set_signature(signature_of_xmm_ymm_zmm[w ? w - 1u : 0u]);
@@ -3947,7 +3947,7 @@ void UniCompiler::emit_2v(UniOpVV op, const Operand_& dst_, const Operand_& src_
         if (src.is_reg())
           src.set_signature(signature_of_xmm_ymm_zmm[w]);
         else if (src.x86_rm_size() == 0)
-          src.as<Mem>().set_size(w * 32u);
+          src.as<Mem>().set_size(dst_size);
 
         cc->emit(inst_id, dst, src);
         return;
